@@ -104,6 +104,7 @@ pub fn leg_standins() -> Value {
     check("Option::replace", old == Some(1) && o == Some(2), "".into());
     check("Option::filter", Some(3).filter(|x| *x > 2) == Some(3) && Some(1).filter(|x| *x > 2).is_none() && None::<i32>.filter(|_| true).is_none(), "".into());
     check("Result::unwrap_or", Ok::<i32, ()>(3).unwrap_or(9) == 3 && Err::<i32, ()>(()).unwrap_or(9) == 9, "".into());
+    check("Option::copied / Option::or", Some(&5).copied() == Some(5) && None::<&i32>.copied().is_none() && Some(1).or(Some(2)) == Some(1) && None.or(Some(2)) == Some(2), "".into());
     check("bool::then_some", true.then_some(7) == Some(7) && false.then_some(7).is_none(), "".into());
     let mut m: HashMap<(u8, u8), u32> = HashMap::new();
     m.insert((1, 1), 10);
